@@ -34,7 +34,9 @@ pair it is reported once with site `all-sites`.
 Every disagreement is confirmed by posing the pair again in a module of its
 own (phase 2).  One that does not reproduce alone is a context-dependent
 disagreement (pytype's verdict depends on the cases that precede it in the
-module): reported as `context-dependent|<direction>|<value head>`.
+module): reported as `context-dependent|<direction>|<value head>` (in the
+fixed-order "twin constant" modules, whose composition does not depend on the
+seed: `context-dependent|<direction>|<annotation skeleton>|<value head>`).
 """
 from __future__ import annotations
 
@@ -236,7 +238,8 @@ def describe(ns, ann_text, val_text):
   except Exception as e:  # pylint: disable=broad-except
     return {"member": None, "note": f"eval failed: {type(e).__name__}: {e}"}
   m = M.member(val, ann)
-  d = {"member": m, "canon": canon(ann), "vdesc": vdesc(val), "vhead": value_head(val)}
+  d = {"member": m, "canon": canon(ann), "vdesc": vdesc(val), "vhead": value_head(val),
+       "ask": ann_skeleton(ann)}
   if m is None:
     return d
   # pieces for localisation and keys
@@ -300,11 +303,15 @@ def judge_module(pairs, ns):
 
 def child(arg):
   ns = runtime_namespace()
-  pairs = [tuple(p) for p in arg["pairs"]]
-  size = arg.get("module_pairs", MODULE_PAIRS)
+  if "modules" in arg:
+    modules = [[tuple(p) for p in m] for m in arg["modules"]]
+  else:
+    pairs = [tuple(p) for p in arg["pairs"]]
+    size = arg.get("module_pairs", MODULE_PAIRS)
+    modules = [pairs[k:k + size] for k in range(0, len(pairs), size)]
   out = []
-  for k in range(0, len(pairs), size):
-    for d in judge_module(pairs[k:k + size], ns):
+  for k, module in enumerate(modules):
+    for d in judge_module(module, ns):
       d["mod"] = k
       # compact: drop oracle detail of agreeing / undecided pairs
       dis = False
@@ -397,16 +404,25 @@ def run(tier, seed):
   have = set(pairs)
   nested = [p for p in ground.c02_nested_slice() if p not in have]
   pairs += nested
+  have.update(nested)
+  wrapped = [p for p in ground.c02_union_container_slice() if p not in have]
+  pairs += wrapped
   rng = random.Random(f"{PID}-{seed}-order")
   rng.shuffle(pairs)            # which cases share a module depends on the seed; verdicts must not
   nchild = 32 if tier == "quick" else 128     # whole rounds of the 16-worker pool
   per = (len(pairs) + nchild - 1) // nchild
   tasks = []
   for b, k in enumerate(range(0, len(pairs), per)):
+    chunk = pairs[k:k + per]
     tasks.append({"fn": "vf.checks.c02:child", "id": f"b{b}", "timeout": 7200,
-                  "arg": {"pairs": pairs[k:k + per], "module_pairs": MODULE_PAIRS}})
+                  "arg": {"modules": [chunk[j:j + MODULE_PAIRS]
+                                      for j in range(0, len(chunk), MODULE_PAIRS)]}})
+  # fixed-order modules of ==-equal, differently typed constants (not shuffled)
+  twins = ground.c02_twin_modules()
+  tasks.insert(0, {"fn": "vf.checks.c02:child", "id": "twins", "timeout": 7200,
+                   "arg": {"modules": twins}})
   recs = []
-  batches = {t["id"]: t["arg"]["pairs"] for t in tasks}
+  batches = {t["id"]: t["arg"]["modules"] for t in tasks}
   for res in pool.run_tasks(tasks):
     if not res.get("ok"):
       ck.child_failed(res, f"batch {res.get('task')}")
@@ -437,6 +453,8 @@ def run(tier, seed):
   evaluate(ck, recs, iso, batches)
   ck.count("pairs_generated", len(pairs))
   ck.count("pairs_of_targeted_nested_slice", len(nested))
+  ck.count("pairs_of_union_over_container_slice", len(wrapped))
+  ck.count("pairs_in_twin_constant_modules", sum(len(m) for m in twins))
   ck.extra["grid"] = {"annotations": len(anns), "values": len(values), "sites": 3}
   ck.exhaustive = False
   ck.extra["exhaustive_slice"] = ("the whole annotation x value x site grid of this tier is "
@@ -485,12 +503,17 @@ def evaluate(ck, recs, iso=None, batches=None):
           if verdict(alone, site) != v:
             # pytype's verdict on this case depends on the other cases of the module
             ck.count("context_dependent_" + v)
-            ck.violation(f"context-dependent|{v}|{d['vhead']}", {
+            ckey = f"context-dependent|{v}|{d['vhead']}"
+            if d.get("batch") == "twins":
+              # fixed-order module: its composition does not depend on the seed,
+              # so the key can name the annotation shape as well
+              ckey = f"context-dependent|{v}|{d.get('ask', '?')}|{d['vhead']}"
+            ck.violation(ckey, {
                 "annotation": d["ann"], "value": d["val"], "site": site, "direction": v,
                 "oracle_member": d["member"], "flagged_in_shared_module": d["sites"][site]["flagged"],
                 "flagged_alone": alone["sites"][site]["flagged"],
-                "module_pairs": ((batches or {}).get(d.get("batch")) or [])[
-                    d.get("mod", 0):d.get("mod", 0) + MODULE_PAIRS],
+                "module_pairs": (((batches or {}).get(d.get("batch")) or [[]])
+                                 + [[]] * (d.get("mod", 0) + 1))[d.get("mod", 0)],
                 "note": "the disagreement only appears when the other cases of module_pairs share "
                         "the module"})
             continue
